@@ -142,6 +142,11 @@ def _combo_job(kw):
                 got = xs_op.entry(key, p, j)
                 if not O.same(got, exp):
                     bad.append((key, p, j, O.diff_text(got, exp)))
+    # the returned point is labelled with the requested kinematics
+    for name, got_, want in (("x", xs_op.res_x, "xB"), ("Q2", xs_op.res_Q2, "Q2")):
+        n += 1
+        if A.canon(got_) != want:
+            bad.append((("label",), name, 0, f"the result is labelled {name} = {A.canon(got_)[:30]} instead of the requested {want}"))
     return ("cmp", n, bad[:3], len(bad))
 
 
@@ -166,6 +171,10 @@ def check_combo(rep, proj, tier):
                 continue
         jobs.append(dict(kind=kind, fl=fl, process=proc, projectile=projectile, fns=fns, nfff=nfff, nf=nf, pto=1, tmc=tmc,
                          ren_sv=(tmc == 0 and fl == "total"), fact_sv=(tmc == 0 and fl == "total")))
+        if fl == "total" and fns == "ZM-VFNS" and tmc == 0 and projectile in ("electron", "neutrino"):
+            # a kinematic point is a mapping: the order in which x, Q2, y are written is not part of the request
+            for order in (("Q2", "x", "y"), ("y", "Q2", "x")):
+                jobs.append(dict(kind=kind, fl=fl, process=proc, projectile=projectile, fns=fns, nfff=nfff, nf=nf, pto=1, tmc=0, ren_sv=False, fact_sv=False, kin_order=order))
     outs = sweep.run_cells(_combo_job, jobs)
     n_entries = 0
     for kw, o in zip(jobs, outs):
